@@ -477,6 +477,11 @@ func genAdmission(t *rapid.T, label string) *core.Admission {
 			lp := fmt.Sprintf("%s-p%d", l, j)
 			var pi core.ProfInfo
 			pi.Naming = genNaming(t, lp+"-naming")
+			if c.Naming != nil && rapid.IntRange(0, 3).Draw(t, lp+"-same-naming") == 0 {
+				// the profession info names the very authority its admission names (still written out in both places)
+				same := *c.Naming
+				pi.Naming = &same
+			}
 			ni := rapid.IntRange(1, 3).Draw(t, lp+"-ni")
 			for k := 0; k < ni; k++ {
 				pi.Items = append(pi.Items, genText(t, fmt.Sprintf("%s-i%d", lp, k), 16))
